@@ -1,7 +1,7 @@
 (* C01 — decoded fields match the canboat definition for every PGN and payload.
    Generic statements (any database record, any lookup tables, any payload); the instance for the
    tables regenerated from /repo is tools/templates/OblC01.v, compiled on every run. *)
-From NV Require Import Base Bits Defn PyNum Fields Dispatch Template Spec SpecProofs.
+From NV Require Import Base Bits Defn PyNum Fields Dispatch Template Spec SpecProofs RangeProofs.
 
 (* Running the steps the generator is meant to emit for a database definition — statement by
    statement as the generated Python runs (running offset, registers, appends) — yields exactly the
@@ -55,3 +55,80 @@ Example C01_example :
        (match spec_decode [] [] (255 + 256 * 32767) ex_def with Ok m => Some m | _ => None end)
      = Some [VNone; VNone].
 Proof. split; [reflexivity|]. split; [eexists; split; [reflexivity|]; vm_compute; reflexivity | vm_compute; reflexivity]. Qed.
+
+(* ---- totality and correct rounding on in-range raw values (IEEE-754; proofs in RangeProofs.v) ----
+   "payloads whose fields are inside the database range decode to a message instead of failing", and
+   "the value obtained from exactly those bits under its resolution": a raw value n that is not the
+   not-available pattern and whose exact product with the resolution lies inside [mn, mx] is never
+   rejected by decode_number's range test; the result is the int n*k for an integer resolution k, and
+   for a float resolution r the finite double fl(n*r) — the correctly rounded product (round to nearest
+   even, binary64), hence within 2^-53 relative of n*r.
+   Side conditions (booleans, RangeProofs.v): raw_okb — nothing for an int resolution; |n| < 2^53 and an
+   ordinary float resolution (finite, 2^-300 <= |r| <= 2^300) otherwise. bound_okb — a finite double
+   bound below 2^1000; any int bound with an int resolution; an int bound below 2^53 with a float one.
+   pyR x is the real number the Python int/float x denotes. *)
+From Coq Require Import Reals Floats.
+From Flocq Require Import Core BinarySingleNaN IEEE754.PrimFloat.
+From NV Require Import PyNum.   (* again, so that PI is the Python int constructor, not the real number pi *)
+
+Theorem C01_in_range_total : forall (n len : Z) (signed : bool) (res mn mx : pynum),
+  not_available signed len n = false ->
+  raw_okb n res = true -> bound_okb res mn = true -> bound_okb res mx = true ->
+  (pyR mn <= IZR n * pyR res <= pyR mx)%R ->
+  exists v, number_of_raw n len signed res mn mx = Ok v /\
+    match res with
+    | PI k => v = VInt (n * k)%Z
+    | PF r => exists f, v = VFloat f /\ is_finite (Prim2B f) = true /\
+        B2R (Prim2B f) = round radix2 (FLT_exp (-1074) 53) ZnearestE (IZR n * B2R (Prim2B r)) /\
+        (Rabs (B2R (Prim2B f) - IZR n * B2R (Prim2B r))
+           <= bpow radix2 (-53) * Rabs (IZR n * B2R (Prim2B r)))%R
+    end.
+Proof. exact number_in_range_decodes. Qed.
+Print Assumptions C01_in_range_total.
+
+(* the same with the range hypothesis decided by exact integer arithmetic on mantissas and exponents
+   (in_range_exact), so that every hypothesis is a boolean the kernel evaluates *)
+Theorem C01_in_range_total_b : forall (n len : Z) (signed : bool) (res mn mx : pynum),
+  not_available signed len n = false ->
+  raw_okb n res = true -> bound_okb res mn = true -> bound_okb res mx = true ->
+  in_range_exact n res mn mx = true ->
+  exists v, number_of_raw n len signed res mn mx = Ok v /\ decoded_as n res v.
+Proof. exact number_in_range_decodes_b. Qed.
+Print Assumptions C01_in_range_total_b.
+
+(* the general form, tolerance included: with v = fl(n*r) the computed value (scaledR) and
+   tol = fl(1e-12 * |v|) the tolerance the library grants (tolR; 0 for an int resolution), a value with
+   mn - tol <= v <= mx + tol is decoded. This covers a top-of-range raw value whose product exceeds
+   the bound by an ulp (raw 65532 at 0.1 against 6553.2, below) *)
+Theorem C01_within_tolerance_total : forall (n len : Z) (signed : bool) (res mn mx : pynum),
+  not_available signed len n = false ->
+  raw_okb n res = true -> bound_okb res mn = true -> bound_okb res mx = true ->
+  (pyR mn - tolR n res <= scaledR n res <= pyR mx + tolR n res)%R ->
+  exists v, number_of_raw n len signed res mn mx = Ok v /\ decoded_as n res v.
+Proof. exact number_within_tolerance_decodes. Qed.
+Print Assumptions C01_within_tolerance_total.
+
+Theorem C01_within_tolerance_total_b : forall (n len : Z) (signed : bool) (res mn mx : pynum),
+  not_available signed len n = false ->
+  raw_okb n res = true -> bound_okb res mn = true -> bound_okb res mx = true ->
+  in_range_tol n res mn mx = true ->
+  exists v, number_of_raw n len signed res mn mx = Ok v /\ decoded_as n res v.
+Proof. exact number_within_tolerance_decodes_b. Qed.
+Print Assumptions C01_within_tolerance_total_b.
+
+(* non-vacuity: a 16-bit unsigned field at resolution 0.1 (the double 0x1.999999999999ap-4), range
+   0 .. 6553.2. Raw 65531 is inside the range exactly and decodes to fl(65531 * 0.1) = 6553.1; raw 65532
+   has 65532 * 0.1 > 6553.2 (by 4915 * 2^-53), is outside the exact range but inside the tolerance, and
+   decodes to 6553.200000000001; integer resolution 5 with int bounds *)
+Example C01_in_range_example :
+  let r := PF 0x1.999999999999ap-4 in let mx := PF 0x1.9993333333333p+12 in
+  (not_available false 16 65531 = false /\ raw_okb 65531 r = true /\ bound_okb r (PI 0) = true /\
+   bound_okb r mx = true /\ in_range_exact 65531 r (PI 0) mx = true /\
+   number_of_raw 65531 16 false r (PI 0) mx = Ok (VFloat 0x1.999199999999ap+12)) /\
+  (not_available false 16 65532 = false /\ in_range_exact 65532 r (PI 0) mx = false /\
+   in_range_tol 65532 r (PI 0) mx = true /\
+   number_of_raw 65532 16 false r (PI 0) mx = Ok (VFloat 0x1.9993333333334p+12)) /\
+  (raw_okb (-10) (PI 5) = true /\ bound_okb (PI 5) (PI (-100000)) = true /\
+   in_range_exact (-10) (PI 5) (PI (-100000)) (PI 100000) = true /\
+   number_of_raw (-10) 16 true (PI 5) (PI (-100000)) (PI 100000) = Ok (VInt (-50))).
+Proof. vm_compute. repeat split. Qed.
